@@ -30,6 +30,14 @@ CLAIMED = {
                 note='Trusted: z3, AST rewrite, the reference number grammar and reference binder; dimensions compared with the exact rational within (1+unit/pt) sp, floats as reals. '
                      'Signatures beyond 3 arguments, mu units, url/label/ref/cs types are outside the claim.',
                 ref='DESIGN.md section 5 C05'),
+    'C15': dict(level='model_checking',
+                text='Bounded exhaustive over request histories of the real generator through its call interface: 7 templates of the documented grammar x histories of 2-4 '
+                     '(thorough 4-6) requests x every presence pattern of the bindings (symbolic booleans) x ALL binding values of bounded length over {a,b,blank,/} (symbolic: '
+                     'collisions, blanks, forbidden characters decided by z3): each returned name equals the reference generator\'s, is fresh, not reserved, free of forbidden '
+                     'characters, and exhaustion is reported by ValueError on that and every later request.',
+                note='Template shape, history length and value lengths are finite choices; the SMT content is value collisions, word splitting, character substitution. '
+                     'string.Template.substitute and os.path.splitext are modelled by their documented rules and validated against the real functions at start-up.',
+                ref='DESIGN.md section 5 C15'),
     'C19': dict(level='model_checking',
                 text='Bounded exhaustive over all expression trees of depth <= 2 (thorough: depth 3 with <= 5 atoms, depth-4 chains) written as LaTeX source: for every '
                      'valuation of the atoms (booleans, symbolic digits and relation characters, symbolic \\equal letters) exactly the branch denoted by the expression '
